@@ -41,9 +41,9 @@ def _indent_of(line: str) -> int:
 def dec_multi(t: str) -> str:
     """multi line literal, dedent rules of the language spec (indentation = blanks)."""
     body = t[3:-3]
-    lines = body.splitlines()
-    if not lines:
-        return ""
+    # lines of the literal: the text between line breaks (also an empty last line after a final line break counts,
+    # it is what "the last line ... only consists of whitespace characters" refers to)
+    lines = body.replace("\r\n", "\n").split("\n")
     first = lines[0]
     if len(lines) == 1:
         return first
